@@ -1,7 +1,8 @@
 ---------------------------- MODULE MC_ParReadGen ----------------------------
 (* Schedule generator / schedule-driven executor for ParRead, instantiated from a recorded    *)
 (* num_threads = 1 run of the real code (trace-driven instantiation): IOEnv.CASE is a JSON    *)
-(* file {n, preT, mainT, lock, pre: [[{k,a}..]..], main: [...], mode, plans, pairPhase}.      *)
+(* file {n, preT, mainT, lock, pre: [[{k,a}..]..], main: [...], mode, plans, pairPhase,      *)
+(* pairTasks}.                                                                                *)
 (*                                                                                            *)
 (* The history variable `sched` makes states = schedule prefixes, so the terminal states are  *)
 (* exactly the schedules (total orders of the I/O steps SH/RH/SB/RB of all tasks). Local      *)
@@ -42,13 +43,15 @@ PairPhase(ph, x, y, ci, cj) ==
     IN SeqTasks(ph, Rng(1, hi), {x, y})
        \o Rep(x, ci) \o Rep(y, cj) \o Rep(x, NIo(ph, x) - ci) \o Rep(y, NIo(ph, y) - cj)
        \o SeqTasks(ph, Rng(hi + 1, NTasks), {})
+PairTasks == {Case.pairTasks[j] : j \in DOMAIN Case.pairTasks}     \* tasks whose pairs are enumerated
 PairPlans(ph) ==
     { IF ph = "pre" THEN PairPhase("pre", x, y, ci, cj) \o SeqPhase("main")
                     ELSE SeqPhase("pre") \o PairPhase("main", x, y, ci, cj)
-      : <<x, y, ci, cj>> \in { q \in Tasks \X Tasks \X (1..64) \X (1..64) :
+      : <<x, y, ci, cj>> \in { q \in PairTasks \X PairTasks \X (1..64) \X (1..64) :
                                /\ q[1] # q[2] /\ q[3] < NIo(ph, q[1]) /\ q[4] <= NIo(ph, q[2]) } }
 PlanSet == CASE Case.mode = "all" -> {<<>>}
-             [] Case.mode = "pair" -> PairPlans(Case.pairPhase)
+             [] Case.mode = "pair" -> IF Case.pairPhase = "both" THEN PairPlans("pre") \cup PairPlans("main")
+                                      ELSE PairPlans(Case.pairPhase)
              [] Case.mode = "given" -> {p : p \in {Case.plans[j] : j \in DOMAIN Case.plans}}
 
 gvars == <<vars, plan>>
@@ -69,9 +72,11 @@ GenSpec == GenInit /\ [][GenNext]_gvars
 
 Terminal == \A s \in Threads : pc[s] = "Done"
 Emit == Terminal => PrintT(ToJson([sched |-> sched, bad |-> bad, lockv |-> lockv]))
-\* sanity of the executor itself (never about the implementation)
-GenInv == /\ TypeOK /\ QueueOK /\ PhaseOrder /\ ReadsAreTheSequentialReads
-          /\ (Lock => EveryReadReturnsItsOwnBytes /\ ResultIndependentOfSchedule)
-          /\ (bad = 0 => EveryReadReturnsItsOwnBytes /\ ResultIndependentOfSchedule)
-          /\ (Terminal => AllDone)
+\* sanity of the executor itself (never about the implementation); the content invariants are
+\* model-checked in MC_ParRead, here they are evaluated on the complete schedule only
+GenInv == /\ TypeOK /\ QueueOK /\ PhaseOrder
+          /\ Terminal => /\ AllDone /\ ReadsAreTheSequentialReads
+                          /\ (bad = 0 => EveryReadReturnsItsOwnBytes /\ result = SeqResult)
+                          /\ (bad # 0 => ~EveryReadReturnsItsOwnBytes)
+                          /\ (Lock => bad = 0 /\ lockv = 0)
 =============================================================================
